@@ -2,12 +2,12 @@
    events), number mode, any stop block.
 
    c07_prop checks such a stream with `final_fold None`: each delivered block extends the previous one.
-   WITHOUT a further hypothesis this is FALSE in the model (C07_final_only_refuted): when the join happens at a
-   file block above the hub's LIB - the merged files hold blocks the (lagging) hub does not yet consider final -
-   the live hub later announces as Irreversible the blocks between its LIB and the join point, which the files
-   have already delivered as new+irreversible: blocks are delivered twice, out of order.
-   Under `files_final` (whenever the hub is ready every merged block is at or below its LIB - merged files hold
-   final blocks only, for the hub too) the clause holds: C07_seamless_num_final. *)
+   With the stateless filter the code had before the fix "each final block once" this was FALSE
+   (Spec/C07_FinalUnfixed_Spec.v, c07_final_only_refuted: when the join happens at a file block above the hub's LIB the
+   live hub announces again, as Irreversible, blocks the files already delivered).  The filter of the model is now
+   stateful (Model/Joining.chain_fin: a passing event numbered at or below the last one forwarded is dropped) and the
+   clause holds under the world hypotheses of C07_seamless_num alone: C07_seamless_num_final.  No agreement
+   hypothesis between the files and the hub's LIB (files_final) is needed. *)
 From BV Require Import Base.Prelude Model.Block Model.ForkDB Model.Forkable Model.ForkableLookups
   Model.Burst Model.Hub Model.CursorResolver Model.Joining
   Spec.Consumer Spec.Universe Check.Burst_Check Check.C07_Check Spec.C06_Spec Spec.C07_Spec Spec.C09_Spec
@@ -18,12 +18,13 @@ Local Open Scope N_scope.
 Definition final_lib (c : jcfg) (w : world) : N :=
   rn (libref (db (h_f (w_hub (world_after c (length (w_rest w)) w))))).
 
-(* Final blocks only, from a block number, any stop block, files_final.  For EVERY outcome each delivered block
-   extends the previous one (the checker's final_fold).  When the stream ends waiting: it never left the files and
-   has delivered exactly the merged blocks from start, or it has joined the hub, every block has arrived, and from
-   start on it has delivered exactly canon up to the hub's LIB - every final canonical block from the start point
-   on, once, in order.  (Blocks BELOW start may precede them when the stream is live from the start and the hub's
-   LIB is below start: the hub announces every block that becomes final.) *)
+(* Final blocks only, from a block number, any stop block.  For EVERY outcome each delivered block extends the previous
+   one (the checker's final_fold).  When the stream ends waiting: it never left the files and has delivered exactly
+   the merged blocks from start, or it has joined the hub, every block has arrived, and from start on it has
+   delivered exactly canon up to a height hi at or above the hub's LIB - every final canonical block from the start
+   point on, once, in order (hi is the hub's LIB, or the last file block delivered when the hub's LIB never caught up
+   with the files).  Blocks BELOW start may precede them when the stream is live from the start and the hub's LIB is
+   below start: the hub announces every block that becomes final. *)
 Definition C07_seamless_num_final : Prop :=
   forall (U : list block) (c : jcfg) (w : world) (ps : list (N * N)) (merged_end : N) (canon forked : list block),
     wf_b U = true -> lib_ok_b LNone U = true ->
@@ -31,7 +32,6 @@ Definition C07_seamless_num_final : Prop :=
     chain_ok canon -> incl canon U ->
     let merged := filter (fun b => bnum b <? merged_end) canon in
     eventual_tip c w canon ->
-    files_final c w merged ->
     j_mode c = 0 -> j_filter c = 1 ->
     0 < j_bundle c -> Forall (fun b => bnum b < file_bound) merged ->
     let res := stream_run c w ps merged_end merged forked in
@@ -40,5 +40,23 @@ Definition C07_seamless_num_final : Prop :=
     final_fold None (fst res) = true /\
     (snd res = JNil ->
        map eblk (fst res) = from_num start merged \/
-       from_num start (map eblk (fst res)) = seg_num start (final_lib c w) canon).
+       exists hi, final_lib c w <= hi /\ from_num start (map eblk (fst res)) = seg_num start hi canon).
 
+(* Final blocks only FROM A CURSOR: c07_prop checks `final_fold (Some (id of the cursor block))` - the first delivered
+   block extends the cursor block.  This is FALSE in the model (and, by correspondence, in the code as it is): the
+   filter's memory starts empty, so when the cursor is ahead of the hub's LIB (the consumer got its last final block from
+   merged files that the lagging hub does not yet consider final) and the hub serves the cursor itself, the hub later
+   announces as Irreversible blocks at or below the cursor block.  Every world hypothesis of the C07 theorems holds; the
+   cursor is on a final canonical block (IsOnFinalBlock). *)
+Definition C07_final_cursor_refuted : Prop :=
+  exists (U : list block) (c : jcfg) (w : world) (ps : list (N * N)) (merged_end : N) (canon forked : list block) (cu : cursor) (L : block),
+    wf_b U = true /\ lib_ok_b LNone U = true /\
+    hub_of_universe U c w /\
+    chain_ok canon /\ incl canon U /\
+    eventual_tip c w canon /\
+    j_mode c = 1 /\ j_cursor c = Some cu /\ j_filter c = 1 /\ j_stop c = 0 /\ 0 < j_bundle c /\
+    on_final_block cu = true /\ In L canon /\ bref L = cu_blk cu /\ bref L = cu_lib cu /\
+    let res := stream_run c w ps merged_end (filter (fun b => bnum b <? merged_end) canon) forked in
+    snd res = JNil /\ final_fold (Some (ri (cu_blk cu))) (fst res) = false /\
+    (* blocks at or below the cursor block are delivered *)
+    exists e, In e (fst res) /\ bnum (eblk e) <= rn (cu_blk cu).
